@@ -678,6 +678,44 @@ def py_shapes(path):
     return out
 
 
+_POPEN = {"forChanges", "ifStatusAttr", "ifObjClosed", "forMulti", "forLinkList", "ifLinkNotClosed"}
+
+
+def _ptree(toks, ind=1):
+    """flat tokens of _update_internal_graph (open … [else_ …] close) -> Lean term of Prog.PStmt"""
+    pos = [0]
+
+    def block(depth):
+        items = []
+        while pos[0] < len(toks) and toks[pos[0]] not in ("close", "else_"):
+            t = toks[pos[0]]
+            pos[0] += 1
+            if t in _POPEN:
+                a = block(depth + 1)
+                b = None
+                if pos[0] < len(toks) and toks[pos[0]] == "else_":
+                    pos[0] += 1
+                    b = block(depth + 1)
+                if pos[0] >= len(toks) or toks[pos[0]] != "close":
+                    raise vlib.BrokenTie("_update_internal_graph: unbalanced skeleton %s" % toks)
+                pos[0] += 1
+                if t == "ifObjClosed":
+                    items.append(".%s %s %s" % (t, a, b if b is not None else "(blockP [])"))
+                elif b is not None:
+                    raise vlib.BrokenTie("_update_internal_graph: else branch on %s" % t)
+                else:
+                    items.append(".%s %s" % (t, a))
+            else:
+                items.append("." + t)
+        pad = "  " * (depth + 1)
+        return "(blockP [\n" + ",\n".join(pad + x for x in items) + "])" if items else "(blockP [])"
+
+    out = block(ind)
+    if pos[0] != len(toks):
+        raise vlib.BrokenTie("_update_internal_graph: unbalanced skeleton %s" % toks)
+    return out[1:-1]
+
+
 def write_shape(repo):
     body, params = cpp_shape(os.path.join(repo, "wntr/sim/network_isolation/network_isolation.cpp"))
     py = py_shapes(os.path.join(repo, "wntr/sim/core.py"))
@@ -689,10 +727,10 @@ def write_shape(repo):
            "/-- its array parameters, in order -/\ndef cppParams : List Arr := %s\n\n"
            "/-- the arguments `_get_isolated_junctions_and_links` passes, in order -/\ndef callArgs : List PyArg := %s\n\n"
            "/-- registry generators iterated by `_initialize_internal_graph` and by the head of `run_sim` -/\ndef iter : Iter :=\n  %s\n\n"
-           "def updateToks : List PyTok := %s\n\ndef isolatedToks : List PyTok := %s\n\n"
+           "/-- `_update_internal_graph` -/\ndef updateProg : PStmt :=\n  %s\n\ndef isolatedToks : List PyTok := %s\n\n"
            "def initToks : List PyTok := %s\n\ndef csrIndexToks : List PyTok := %s\n\ndef headToks : List PyTok := %s\n\n"
            "/-- the `while True:` body of `run_sim` -/\ndef loopToks : List LoopTok := %s\n\nend Wntr.Isolation.Gen\n"
-           % (body, lst(params), lst(py["callArgs"]), py["iter"], lst(py["updateToks"]), lst(py["isolatedToks"]), lst(py["initToks"]),
+           % (body, lst(params), lst(py["callArgs"]), py["iter"], _ptree(py["updateToks"]), lst(py["isolatedToks"]), lst(py["initToks"]),
               lst(py["csrIndexToks"]), lst(py["headToks"]), lst(py["loopToks"])))
     vlib.write_if_changed(os.path.join(vlib.LEAN, "WntrModel/Gen/IsolationShape.lean"), txt)
 
